@@ -33,18 +33,110 @@ func c18ExpandBlocks(c *Ctx) {
 		return
 	}
 	c.Fn(FuncName(fn))
-	recv := fn.Params[0]
-	isRecvIteration := func(v ssa.Value) bool {
-		u, ok := v.(*ssa.UnOp)
-		if !ok {
-			return false
+	var analyseBlock func(f *ssa.Function, blk ssa.Value, at *ssa.BasicBlock, pos token.Pos, depth int)
+	analyseBlock = func(f *ssa.Function, blk ssa.Value, at *ssa.BasicBlock, pos token.Pos, depth int) {
+		frecv := f.Params[0]
+		isRecvIteration := func(v ssa.Value) bool {
+			u, ok := v.(*ssa.UnOp)
+			if !ok {
+				return false
+			}
+			fa, ok := u.X.(*ssa.FieldAddr)
+			if !ok {
+				return false
+			}
+			fv := fieldVarOf(fa.X.Type(), fa.Field)
+			return fv != nil && fv.Name() == "iteration" && (fa.X == ssa.Value(frecv) || isSpillOf(fa.X, frecv))
 		}
-		fa, ok := u.X.(*ssa.FieldAddr)
-		if !ok {
-			return false
+		kind := "static"
+		var blockObj ssa.Value = blk
+		// generated blocks come from spec.newBlock
+		if ex, ok := blk.(*ssa.Extract); ok {
+			if c2, ok := ex.Tuple.(*ssa.Call); ok && c2.Call.StaticCallee() == nb {
+				kind = "generated"
+			}
 		}
-		fv := fieldVarOf(fa.X.Type(), fa.Field)
-		return fv != nil && fv.Name() == "iteration" && fa.X == ssa.Value(recv)
+		// a helper method of the body that makes the block: judged on what it returns
+		if c2, ok := blk.(*ssa.Call); ok && depth < 2 {
+			if h := c2.Call.StaticCallee(); h != nil && h != nb && inModule(h) && len(h.Blocks) > 0 && h.Signature.Recv() != nil && namedOf(h.Signature.Recv().Type()) == namedOf(f.Signature.Recv().Type()) && len(c2.Call.Args) > 0 && (c2.Call.Args[0] == ssa.Value(frecv) || isSpillOf(c2.Call.Args[0], frecv)) {
+				for _, hb := range h.Blocks {
+					if r, ok := hb.Instrs[len(hb.Instrs)-1].(*ssa.Return); ok && len(r.Results) == 1 {
+						analyseBlock(h, r.Results[0], hb, r.Pos(), depth+1)
+					}
+				}
+				return
+			}
+		}
+		// the Body store on that block object
+		var bodyStore *ssa.Store
+		for _, b2 := range f.Blocks {
+			for _, i2 := range b2.Instrs {
+				s2, ok := i2.(*ssa.Store)
+				if !ok {
+					continue
+				}
+				fa, ok := s2.Addr.(*ssa.FieldAddr)
+				if !ok {
+					continue
+				}
+				fv := fieldVarOf(fa.X.Type(), fa.Field)
+				if fv == nil || fv.Name() != "Body" || !isNamed(fa.X.Type(), modPath, "Block") {
+					continue
+				}
+				if fa.X == blockObj && (s2.Block() == at || s2.Block().Dominates(at)) {
+					bodyStore = s2
+				}
+			}
+		}
+		key := fmt.Sprintf("ext/dynblock.expandBody.expandBlocks:append[%s]", kind)
+		if bodyStore == nil {
+			c.Fail("expand.child", key, pos, "a block is appended to the expansion result without its Body being replaced by an expanded child body: nested dynamic blocks and iterator references inside it are not processed")
+			return
+		}
+		// value stored: expandChild(...) or unknownBody{template: expandChild(...)}
+		var ecCall *ssa.Call
+		val := bodyStore.Val
+		if mi, ok := val.(*ssa.MakeInterface); ok {
+			val = mi.X
+		}
+		if c3, ok := val.(*ssa.Call); ok && c3.Call.StaticCallee() == ec {
+			ecCall = c3
+		} else if u, ok := val.(*ssa.UnOp); ok && u.Op == token.MUL {
+			if al2, ok := u.X.(*ssa.Alloc); ok && isNamed(al2.Type(), modPath+"/ext/dynblock", "unknownBody") {
+				kind += "-unknown"
+				key = fmt.Sprintf("ext/dynblock.expandBody.expandBlocks:append[%s]", kind)
+				for _, s3 := range storesInto(al2) {
+					if fa, ok := s3.Addr.(*ssa.FieldAddr); ok {
+						if fv := fieldVarOf(fa.X.Type(), fa.Field); fv != nil && fv.Name() == "template" {
+							v3 := s3.Val
+							if mi, ok := v3.(*ssa.MakeInterface); ok {
+								v3 = mi.X
+							}
+							if c3, ok := v3.(*ssa.Call); ok && c3.Call.StaticCallee() == ec {
+								ecCall = c3
+							}
+						}
+					}
+				}
+			}
+		}
+		if ecCall == nil {
+			c.Fail("expand.child", key, bodyStore.Pos(), "the Body of a block in the expansion result is not produced by expandChild")
+			return
+		}
+		iterArg := ecCall.Call.Args[2]
+		fromMakeChild := false
+		if c4, ok := iterArg.(*ssa.Call); ok && c4.Call.StaticCallee() == mk {
+			fromMakeChild = true
+		}
+		switch {
+		case kind == "static":
+			c.Check(isRecvIteration(iterArg), "expand.child", key, ecCall.Pos(), "static block inherits b.iteration",
+				"a static block's child body is expanded with an iteration other than b.iteration: inherited iterators are not visible inside it")
+		default:
+			c.Check(fromMakeChild, "expand.child", key, ecCall.Pos(), "generated block gets the new child iteration",
+				"the child body of a generated block is expanded with an iteration that is not the new one made by MakeChild (e.g. the parent's): the block's own iterator is not bound inside it")
+		}
 	}
 	// every append to the []*hcl.Block result
 	n := 0
@@ -75,85 +167,7 @@ func c18ExpandBlocks(c *Ctx) {
 			}
 			for _, st := range storesInto(al) {
 				n++
-				blk := st.Val // *hcl.Block
-				kind := "static"
-				var blockObj ssa.Value = blk
-				// generated blocks come from spec.newBlock
-				if ex, ok := blk.(*ssa.Extract); ok {
-					if c2, ok := ex.Tuple.(*ssa.Call); ok && c2.Call.StaticCallee() == nb {
-						kind = "generated"
-					}
-				}
-				// the Body store on that block object
-				var bodyStore *ssa.Store
-				for _, b2 := range fn.Blocks {
-					for _, i2 := range b2.Instrs {
-						s2, ok := i2.(*ssa.Store)
-						if !ok {
-							continue
-						}
-						fa, ok := s2.Addr.(*ssa.FieldAddr)
-						if !ok {
-							continue
-						}
-						fv := fieldVarOf(fa.X.Type(), fa.Field)
-						if fv == nil || fv.Name() != "Body" || !isNamed(fa.X.Type(), modPath, "Block") {
-							continue
-						}
-						if fa.X == blockObj && s2.Block().Dominates(st.Block()) {
-							bodyStore = s2
-						}
-					}
-				}
-				key := fmt.Sprintf("ext/dynblock.expandBody.expandBlocks:append[%s]", kind)
-				if bodyStore == nil {
-					c.Fail("expand.child", key, call.Pos(), "a block is appended to the expansion result without its Body being replaced by an expanded child body: nested dynamic blocks and iterator references inside it are not processed")
-					continue
-				}
-				// value stored: expandChild(...) or unknownBody{template: expandChild(...)}
-				var ecCall *ssa.Call
-				val := bodyStore.Val
-				if mi, ok := val.(*ssa.MakeInterface); ok {
-					val = mi.X
-				}
-				if c3, ok := val.(*ssa.Call); ok && c3.Call.StaticCallee() == ec {
-					ecCall = c3
-				} else if u, ok := val.(*ssa.UnOp); ok && u.Op == token.MUL {
-					if al2, ok := u.X.(*ssa.Alloc); ok && isNamed(al2.Type(), modPath+"/ext/dynblock", "unknownBody") {
-						kind += "-unknown"
-						key = fmt.Sprintf("ext/dynblock.expandBody.expandBlocks:append[%s]", kind)
-						for _, s3 := range storesInto(al2) {
-							if fa, ok := s3.Addr.(*ssa.FieldAddr); ok {
-								if fv := fieldVarOf(fa.X.Type(), fa.Field); fv != nil && fv.Name() == "template" {
-									v3 := s3.Val
-									if mi, ok := v3.(*ssa.MakeInterface); ok {
-										v3 = mi.X
-									}
-									if c3, ok := v3.(*ssa.Call); ok && c3.Call.StaticCallee() == ec {
-										ecCall = c3
-									}
-								}
-							}
-						}
-					}
-				}
-				if ecCall == nil {
-					c.Fail("expand.child", key, bodyStore.Pos(), "the Body of a block in the expansion result is not produced by expandChild")
-					continue
-				}
-				iterArg := ecCall.Call.Args[2]
-				fromMakeChild := false
-				if c4, ok := iterArg.(*ssa.Call); ok && c4.Call.StaticCallee() == mk {
-					fromMakeChild = true
-				}
-				switch {
-				case kind == "static":
-					c.Check(isRecvIteration(iterArg), "expand.child", key, ecCall.Pos(), "static block inherits b.iteration",
-						"a static block's child body is expanded with an iteration other than b.iteration: inherited iterators are not visible inside it")
-				default:
-					c.Check(fromMakeChild, "expand.child", key, ecCall.Pos(), "generated block gets the new child iteration",
-						"the child body of a generated block is expanded with an iteration that is not the new one made by MakeChild (e.g. the parent's): the block's own iterator is not bound inside it")
-				}
+				analyseBlock(fn, st.Val, st.Block(), call.Pos(), 0)
 			}
 		}
 	}
